@@ -138,12 +138,12 @@ Proof.
   destruct (i <? e - s) eqn:E1.
   - exists (i + s). split; [reflexivity|]. split.
     + apply orb_true_intro; left. lia.
-    + destruct (e <? i + s) eqn:E2; [lia|]. destruct (e =? i + s) eqn:E3; [lia|].
+    + destruct (e <=? i + s) eqn:E2; [lia|].
       destruct (s <=? i + s) eqn:E4; [|lia]. f_equal; lia.
   - destruct (IH e (i - (e - s)) (acc + (e - s)) C) as (g & G1 & G2 & G3); [lia|].
     exists g. split; [exact G1|]. split; [rewrite G2; apply orb_true_r|].
     pose proof (exonic_lb _ _ _ C G2).
-    destruct (e <? g) eqn:E2; [|lia]. rewrite G3. f_equal; lia.
+    destruct (e <=? g) eqn:E2; [|lia]. rewrite G3. f_equal; lia.
 Qed.
 
 Lemma plus_g2tx_tx2g : forall ex lo g acc, wf_from lo ex = true -> exonic ex g = true ->
@@ -153,12 +153,12 @@ Proof.
   apply wf_split in W as (A & B & C). pose proof (wf_len_nonneg _ _ C) as L.
   cbn [tx2g_plus g2tx_plus tx_len]. unfold exon_len; cbn [fst snd].
   destruct ((s <=? g) && (g <? e)) eqn:E.
-  - exists (g - s). destruct (e <? g) eqn:E2; [lia|]. destruct (e =? g) eqn:E3; [lia|].
+  - exists (g - s). destruct (e <=? g) eqn:E2; [lia|].
     destruct (s <=? g) eqn:E4; [|lia]. split; [reflexivity|]. split; [lia|].
     destruct (g - s <? e - s) eqn:E5; [|lia]. f_equal; lia.
   - cbn [orb] in H. destruct (IH e g (acc + (e - s)) C H) as (i & I1 & I2 & I3).
     pose proof (exonic_lb _ _ _ C H).
-    exists (e - s + i). destruct (e <? g) eqn:E2; [|lia]. split; [rewrite I1; f_equal; lia|]. split; [lia|].
+    exists (e - s + i). destruct (e <=? g) eqn:E2; [|lia]. split; [rewrite I1; f_equal; lia|]. split; [lia|].
     destruct (e - s + i <? e - s) eqn:E5; [lia|].
     replace (e - s + i - (e - s)) with i by lia. exact I3.
 Qed.
@@ -169,11 +169,11 @@ Proof.
   induction ex as [|[s e] t IH]; intros lo g acc W N H L; [congruence|].
   apply wf_split in W as (A & B & C). cbn [exonic] in H. apply orb_false_elim in H as [H1 H2].
   cbn [g2tx_plus].
-  destruct (e <? g) eqn:E1.
+  destruct (e <=? g) eqn:E1.
   - destruct t as [|y t'].
     + unfold last_end in L; cbn in L. lia.
     + rewrite last_end_cons in L by discriminate. apply (IH e); [exact C | discriminate | exact H2 | exact L].
-  - destruct (e =? g) eqn:E2; [reflexivity|]. destruct (s <=? g) eqn:E3; [lia | reflexivity].
+  - destruct (s <=? g) eqn:E3; [lia | reflexivity].
 Qed.
 
 (* ------------------------------------------------------------------ minus strand arms (descending lists) *)
@@ -551,9 +551,9 @@ Proof.
   induction ex as [|[s e] t IH]; intros lo p acc W H; cbn [exonic] in H; [discriminate|].
   apply wf_split in W as (A & B & C). cbn [g2tx_plus cds_start_plus]. unfold in_exon, exon_len; cbn [fst snd].
   destruct ((s <=? p) && (p <? e)) eqn:E.
-  - cbn [negb]. destruct (e <? p) eqn:E1; [lia|]. destruct (e =? p) eqn:E2; [lia|].
+  - cbn [negb]. destruct (e <=? p) eqn:E1; [lia|].
     destruct (s <=? p) eqn:E3; [|lia]. reflexivity.
-  - cbn [negb orb] in *. pose proof (exonic_lb _ _ _ C H). destruct (e <? p) eqn:E1; [|lia]. apply (IH e); auto.
+  - cbn [negb orb] in *. pose proof (exonic_lb _ _ _ C H). destruct (e <=? p) eqn:E1; [|lia]. apply (IH e); auto.
 Qed.
 
 Lemma minus_cds_start : forall rex hi q acc, wfd_from hi rex = true -> exonic rex (q - 1) = true ->
@@ -676,11 +676,11 @@ Proof.
   induction ex as [|[s0 e0] t IH]; intros lo s e g g' acc W I H H'; [contradiction|].
   apply wf_split in W as (A & B & C). cbn [g2tx_plus]. destruct I as [I|I].
   - inversion I; subst.
-    destruct (e <? g) eqn:E1; [lia|]. destruct (e =? g) eqn:E2; [lia|]. destruct (s <=? g) eqn:E3; [|lia].
-    destruct (e <? g') eqn:F1; [lia|]. destruct (e =? g') eqn:F2; [lia|]. destruct (s <=? g') eqn:F3; [|lia].
+    destruct (e <=? g) eqn:E1; [lia|]. destruct (s <=? g) eqn:E3; [|lia].
+    destruct (e <=? g') eqn:F1; [lia|]. destruct (s <=? g') eqn:F3; [|lia].
     eexists. split; [reflexivity|]. f_equal; lia.
   - destruct (In_lb _ _ _ _ C I).
-    destruct (e0 <? g) eqn:E1; [|lia]. destruct (e0 <? g') eqn:F1; [|lia]. eapply IH; eauto.
+    destruct (e0 <=? g) eqn:E1; [|lia]. destruct (e0 <=? g') eqn:F1; [|lia]. eapply IH; eauto.
 Qed.
 
 Lemma minus_same_exon : forall rex hi s e g g' acc, wfd_from hi rex = true -> In (s, e) rex ->
@@ -758,14 +758,14 @@ Proof.
   unfold tx_seq in A. cbn [cds_segments map] in A. inversion A. reflexivity.
 Qed.
 
-(* ------------------------------------------------------------------ the proposed book-end repair *)
+(* ------------------------------------------------------------------ the book-end repair (fix c35675e) *)
 (* inside the range test of get_transcript_index (g < end of the last exon) the repaired plus arm and
-   the arm as written agree on every well-separated exon list *)
+   the arm as it was written before agree on every well-separated exon list *)
 Lemma bookend_fix_equiv_l : forall ex lo g acc, wf_from lo ex = true -> ex <> [] -> g < last_end ex ->
-  g2tx_plus_fixed ex g acc = g2tx_plus ex g acc.
+  g2tx_plus ex g acc = g2tx_plus_old ex g acc.
 Proof.
   induction ex as [|[s e] t IH]; intros lo g acc W N L; [congruence|].
-  apply wf_split in W as (A & B & C). cbn [g2tx_plus_fixed g2tx_plus].
+  apply wf_split in W as (A & B & C). cbn [g2tx_plus g2tx_plus_old].
   destruct (e <? g) eqn:E1.
   - destruct (e <=? g) eqn:E2; [|lia].
     destruct t as [|y t']; [unfold last_end in L; cbn in L; lia|].
@@ -773,7 +773,7 @@ Proof.
   - destruct (e =? g) eqn:E2.
     + destruct (e <=? g) eqn:E3; [|lia].
       destruct t as [|[s' e'] t']; [unfold last_end in L; cbn in L; lia|].
-      apply wf_split in C as (A' & B' & C'). cbn [g2tx_plus_fixed].
+      apply wf_split in C as (A' & B' & C'). cbn [g2tx_plus].
       destruct (e' <=? g) eqn:E4; [lia|]. destruct (s' <=? g) eqn:E5; [lia | reflexivity].
     + destruct (e <=? g) eqn:E3; [lia | reflexivity].
 Qed.
